@@ -29,8 +29,8 @@ na = [{"property_id": pid, "reason": "check under construction in this round: mo
 m = {
     "version": 1,
     "setup_cmd": "bash tools/setup.sh",
-    "hooks": {"guard": "mini_moka_verif",
-              "enable": "RUSTFLAGS='--cfg mini_moka_verif' via /verif/harness/.cargo/config.toml (the harness is a path dependency on /repo)",
+    "hooks": {"guard": "mini_moka_verif (the phase-split API additionally under mini_moka_verif_phase)",
+              "enable": "RUSTFLAGS='--cfg mini_moka_verif --cfg mini_moka_verif_phase' via /verif/harness/.cargo/config.toml (the harness is a path dependency on /repo)",
               "baseline_off_cmd": "cd /repo && cargo test --workspace --no-fail-fast --offline",
               "source_commits": hooks_commits, "add_only": True},
     "engines": [{"name": "lean4-proof+correspondence", "path": "/verif/lean/MiniMoka + /verif/harness + /verif/tools/check.py",
